@@ -83,3 +83,9 @@ Definition relatedness_weighted_entry (checked : bool) (num_weights : Z) (index_
    check_set_indexes, then x[i] on a state vector of num_sample_sets elements *)
 Definition set_indexes_entry (num_sets : Z) (idx : list Z) : res unit :=
   if negb (check_set_indexes num_sets idx) then Err E_LIBRARY else read_all (alloc num_sets 0) idx.
+
+(* comparison used where an overrun predicted by the (defective, unchecked) model need not be
+   observable — e.g. the summary function is never called on a tree sequence without sites:
+   only a rejection by the model must be matched by the implementation *)
+Definition verdict_implies_raise (model observed : verdict) : bool :=
+  match model with VRaise => verdict_eqb VRaise observed | _ => true end.
